@@ -645,4 +645,19 @@ def check_scale_guard_level(pf, eng, rep, scheme, fn_filter, rule="R-GUARD(scale
                 rep.violation(rule, key, "under %s, %s tests the scale against %s but its result is recorded at level %s: a scale "
                               "that fits the tested level and not the result's is computed on instead of being refused" %
                               (scheme, p, show(g), show(lvl)), pf.loc(p, node))
+            # the scale that is tested must be the scale the result carries
+            tested = args[0] if len(args) >= 2 else None
+            rscale = res.get("scale") if isinstance(res, dict) else None
+            if tested is not None and rscale is not None:
+                skey = key + "/scale"
+                if mentions(tested, lambda z: z == UNK) or mentions(rscale, lambda z: z == UNK):
+                    rep.unresolved(rule, skey, "tested scale %s / recorded scale %s not resolved" % (show(tested), show(rscale)),
+                                   pf.loc(p, node))
+                elif show(tested) == show(rscale):
+                    rep.ok(rule, skey, "the tested scale is the scale recorded on the result (%s)" % show(rscale), pf.loc(p, node),
+                           nontrivial=False)
+                else:
+                    rep.violation(rule, skey, "under %s, %s tests the bound on the scale %s but records %s on its result: a product whose "
+                                  "scale no longer fits the modulus passes the test of the operand's old scale and is computed instead "
+                                  "of refused" % (scheme, p, show(tested), show(rscale)), pf.loc(p, node))
     return n
